@@ -98,6 +98,23 @@ func replayCounterexample(prop string, r *Result, rp map[string]interface{}, ver
 		rp["replay"] = "confirmed on the real code"
 		return true
 	}
+	if strings.Contains(text, "panic: send on closed channel") || strings.Contains(text, "panic: close of closed channel") {
+		// a goroutine of the real code panicked and killed the test process
+		what := "panic: send on closed channel"
+		if strings.Contains(text, "panic: close of closed channel") {
+			what = "panic: close of closed channel"
+		}
+		scen := ""
+		for _, ln := range strings.Split(text, "\n") {
+			if strings.HasPrefix(ln, "REPLAY-SCENARIO ") {
+				scen = strings.TrimPrefix(ln, "REPLAY-SCENARIO ") + ": "
+			}
+		}
+		rp["failing_input"] = scen + "the process died with " + what
+		fmt.Println("  replayed on the real code:", rp["failing_input"])
+		rp["replay"] = "confirmed on the real code (process panic)"
+		return true
+	}
 	if strings.Contains(text, "WARNING: DATA RACE") {
 		// the race detector observed the unsynchronised access on the real code
 		rp["failing_input"] = "go test -race reports a DATA RACE in " + fn + " under concurrent callers"
